@@ -1046,3 +1046,176 @@ Definition emember_fuel (G : egrammar) (w : list N) : nat :=
   | Some B => Nat.max f (member_fuel B w)
   | None => f
   end.
+
+(** *** [emember_fuel] suffices *)
+Lemma fweight_group b : fweight (FGroup b) = 1 + aweight b.
+Proof. reflexivity. Qed.
+Lemma fweight_opt b : fweight (FOpt b) = 2 + aweight b.
+Proof. reflexivity. Qed.
+Lemma fweight_rep b : fweight (FRep b) = 2 + aweight b.
+Proof. reflexivity. Qed.
+Lemma sweight_app p q : sweight (p ++ q) = sweight p + sweight q.
+Proof. induction p as [|f p IH]; cbn [app sweight fold_right]; [reflexivity|]. fold (sweight (p ++ q)). fold (sweight p). lia. Qed.
+Lemma sweight_cons f p : sweight (f :: p) = fweight f + sweight p.
+Proof. reflexivity. Qed.
+Lemma aweight_app p q : aweight (p ++ q) = aweight p + aweight q.
+Proof. induction p as [|a p IH]; cbn [app aweight fold_right]; [reflexivity|]. fold (aweight (p ++ q)). fold (aweight p). lia. Qed.
+Lemma aweight_cons a p : aweight (a :: p) = sweight a + aweight p.
+Proof. reflexivity. Qed.
+Lemma gweight_app p q : gweight (p ++ q) = gweight p + gweight q.
+Proof. induction p as [|a p IH]; cbn [app gweight fold_right]; [reflexivity|]. fold (gweight (p ++ q)). fold (gweight p). lia. Qed.
+Lemma gweight_cons a b ps : gweight ((a, b) :: ps) = aweight b + gweight ps.
+Proof. reflexivity. Qed.
+
+Lemma gweight_unloc l mid news :
+  gweight (unloc l mid news) = gweight (unloc l [] []) + sweight mid + gweight news.
+Proof.
+  unfold unloc. rewrite !gweight_app, !gweight_cons, !gweight_app.
+  rewrite !aweight_app, !aweight_cons, !sweight_app. cbn [gweight fold_right sweight app]. lia.
+Qed.
+
+Lemma norm_step_weight X ps ps' : norm_step X ps = Some ps' -> gweight ps' < gweight ps.
+Proof.
+  unfold norm_step. destruct (find_prods nonatomic ps) as [l|] eqn:El; [|discriminate].
+  intros H. inversion H; subst ps'. apply find_prods_spec in El as (E & Hna). rewrite E.
+  rewrite (gweight_unloc l [FN X]), (gweight_unloc l [l_f l]), gweight_cons, !sweight_cons.
+  cbn [gweight fold_right sweight fweight].
+  destruct (l_f l) as [t|a|b|b|b]; try discriminate; cbn [norm_body];
+    rewrite ?fweight_group, ?fweight_opt, ?fweight_rep, ?aweight_cons, ?sweight_cons, ?fweight_group;
+    cbn [aweight sweight fweight fold_right]; lia.
+Qed.
+
+Lemma norm_fuel_suffices fuel : forall X ps, gweight ps <= fuel -> norm fuel X ps <> None.
+Proof.
+  induction fuel as [|k IH]; intros X ps Hle; cbn [norm];
+    destruct (norm_step X ps) as [ps1|] eqn:Es; try discriminate.
+  - apply norm_step_weight in Es. lia.
+  - apply IH. apply norm_step_weight in Es. lia.
+Qed.
+
+Lemma norm_fuel_mono fuel : forall fuel' X ps ps', norm fuel X ps = Some ps' -> fuel <= fuel' ->
+  norm fuel' X ps = Some ps'.
+Proof.
+  induction fuel as [|k IH]; intros fuel' X ps ps' H Hle; cbn [norm] in H.
+  - destruct (norm_step X ps) as [ps1|] eqn:Es; [discriminate|].
+    destruct fuel'; cbn [norm]; rewrite Es; exact H.
+  - destruct (norm_step X ps) as [ps1|] eqn:Es.
+    + destruct fuel' as [|k']; [lia|]. cbn [norm]. rewrite Es. apply IH; [exact H|lia].
+    + destruct fuel'; cbn [norm]; rewrite Es; exact H.
+Qed.
+
+Lemma atomic_syms a : forallb (fun f => negb (nonatomic f)) a = true -> syms_of a <> None.
+Proof.
+  induction a as [|f a IH]; intros H; cbn [syms_of]; [discriminate|].
+  cbn [forallb] in H. apply andb_prop in H as [Hf Ha].
+  destruct f; try discriminate; cbn [sym_of]; destruct (syms_of a); try discriminate; exact (IH Ha).
+Qed.
+
+Lemma flat_to_prods ps : find_prods nonatomic ps = None -> to_prods ps <> None.
+Proof.
+  intros H. pose proof (find_prods_none nonatomic ps H) as Hall. clear H.
+  induction ps as [|[a b] ps IH]; cbn [to_prods]; [discriminate|].
+  assert (Hb : prods_of_alts a b <> None).
+  { pose proof (Hall a b (or_introl eq_refl)) as Hb. clear -Hb.
+    induction b as [|alt b IHb]; cbn [prods_of_alts]; [discriminate|].
+    cbn [forallb] in Hb. apply andb_prop in Hb as [H1 H2].
+    pose proof (atomic_syms alt H1). destruct (syms_of alt); [|congruence].
+    pose proof (IHb H2). destruct (prods_of_alts a b); [discriminate|congruence]. }
+  assert (Hps : to_prods ps <> None) by (apply IH; intros a' b' Hin; apply (Hall a' b'); right; exact Hin).
+  destruct (prods_of_alts a b); [|congruence]. destruct (to_prods ps); [discriminate|congruence].
+Qed.
+
+Lemma ebnf_to_bnf_fuel fuel G : gweight (eprods G) <= fuel -> ebnf_to_bnf fuel G <> None.
+Proof.
+  intros Hle. unfold ebnf_to_bnf.
+  pose proof (norm_fuel_suffices fuel (enext G) (eprods G) Hle) as Hn.
+  destruct (norm fuel (enext G) (eprods G)) as [ps'|] eqn:En; [|congruence].
+  assert (Hg : gbound (enext G) (eprods G) = true) by (apply gmax_bound; unfold enext; lia).
+  destruct (norm_preserves fuel _ _ _ Hg En) as [_ Hflat]. unfold to_cfg.
+  pose proof (flat_to_prods ps' Hflat). destruct (to_prods ps'); [discriminate|congruence].
+Qed.
+
+Lemma ebnf_to_bnf_mono fuel fuel' G B : ebnf_to_bnf fuel G = Some B -> fuel <= fuel' ->
+  ebnf_to_bnf fuel' G = Some B.
+Proof.
+  unfold ebnf_to_bnf. intros H Hle.
+  destruct (norm fuel (enext G) (eprods G)) as [ps'|] eqn:En; [|discriminate].
+  rewrite (norm_fuel_mono fuel fuel' _ _ _ En Hle). exact H.
+Qed.
+
+Lemma member_fuel_enough fuel g w : member_fuel g w <= fuel -> member fuel g w <> None.
+Proof.
+  intros Hle. unfold member, member_from.
+  destruct (saturate w (work g w) fuel tempty) eqn:E; [discriminate|]. exfalso. revert E.
+  apply (saturate_fuel g w); [apply sound_tempty|].
+  unfold member_fuel in Hle. rewrite universe_length. lia.
+Qed.
+
+(** With [emember_fuel] (or more) the oracle always answers. *)
+Theorem emember_fuel_suffices G w fuel : emember_fuel G w <= fuel -> emember fuel G w <> None.
+Proof.
+  unfold emember_fuel, emember. intros Hle.
+  pose proof (ebnf_to_bnf_fuel (S (gweight (eprods G))) G ltac:(lia)) as Hb.
+  destruct (ebnf_to_bnf (S (gweight (eprods G))) G) as [B|] eqn:EB; [|congruence].
+  rewrite (ebnf_to_bnf_mono _ fuel G B EB ltac:(lia)). apply member_fuel_enough. lia.
+Qed.
+
+Corollary emember_decides G w :
+  (emember (emember_fuel G w) G w = Some true /\ elang G w) \/
+  (emember (emember_fuel G w) G w = Some false /\ ~ elang G w).
+Proof.
+  destruct (emember (emember_fuel G w) G w) as [[|]|] eqn:E.
+  - left. split; [reflexivity|exact (emember_sound _ _ _ E)].
+  - right. split; [reflexivity|exact (emember_complete _ _ _ E)].
+  - exfalso. exact (emember_fuel_suffices G w _ (le_n _) E).
+Qed.
+
+(** ** Examples *)
+
+(** [S: "a" { "b" | "c" } [ "d" ] ( "e" | "f" );]  with a..f = 5..10. *)
+Definition ex_ebnf1 : egrammar :=
+  mkEg 0 [(0%N, [[FT 5; FRep [[FT 6]; [FT 7]]; FOpt [[FT 8]]; FGroup [[FT 9]; [FT 10]]]])].
+
+Example ex_ebnf1_bnf : ebnf_to_bnf 10 ex_ebnf1 = Some (mkCfg 0
+  [ mkProd 0 [T 5; NT 1; NT 2; NT 3];
+    mkProd 3 [T 9]; mkProd 3 [T 10];
+    mkProd 2 []; mkProd 2 [T 8];
+    mkProd 1 []; mkProd 1 [NT 4; NT 1];
+    mkProd 4 [T 6]; mkProd 4 [T 7] ]).
+Proof. vm_compute. reflexivity. Qed.
+
+Example ex_ebnf1_in1 : emember (emember_fuel ex_ebnf1 [5;6;7;7;8;9]%N) ex_ebnf1 [5;6;7;7;8;9]%N = Some true.
+Proof. vm_compute. reflexivity. Qed.
+Example ex_ebnf1_in2 : emember (emember_fuel ex_ebnf1 [5;10]%N) ex_ebnf1 [5;10]%N = Some true.
+Proof. vm_compute. reflexivity. Qed.
+Example ex_ebnf1_out1 : emember (emember_fuel ex_ebnf1 [5;8;8;9]%N) ex_ebnf1 [5;8;8;9]%N = Some false.
+Proof. vm_compute. reflexivity. Qed.
+Example ex_ebnf1_out2 : emember (emember_fuel ex_ebnf1 [5;6]%N) ex_ebnf1 [5;6]%N = Some false.
+Proof. vm_compute. reflexivity. Qed.
+Example ex_ebnf1_nofuel : emember 1 ex_ebnf1 [5;10]%N = None.
+Proof. vm_compute. reflexivity. Qed.
+
+(** [E: T { "+" T };  T: "x" | "(" E ")" | [ "-" ] "n";]  (+ = 5, x = 6, ( = 7, ) = 8, - = 9, n = 10),
+    with the left-hand side [T] split over two productions. *)
+Definition ex_ebnf2 : egrammar :=
+  mkEg 0 [(0%N, [[FN 1; FRep [[FT 5; FN 1]]]]);
+          (1%N, [[FT 6]; [FT 7; FN 0; FT 8]]);
+          (1%N, [[FOpt [[FT 9]]; FT 10]])].
+
+Example ex_ebnf2_in : emember (emember_fuel ex_ebnf2 [7;6;5;9;10;8;5;10]%N) ex_ebnf2 [7;6;5;9;10;8;5;10]%N = Some true.
+Proof. vm_compute. reflexivity. Qed.
+Example ex_ebnf2_out : emember (emember_fuel ex_ebnf2 [7;6;5;8]%N) ex_ebnf2 [7;6;5;8]%N = Some false.
+Proof. vm_compute. reflexivity. Qed.
+
+(** Non-vacuity of the hypotheses of [emember_sound]/[emember_complete]/[ebnf_to_bnf_correct]:
+    the examples above; of [intro_preserves]/[norm_preserves]: *)
+Example ex_norm : exists ps', norm 10 1 (eprods ex_ebnf1) = Some ps' /\ gbound 1 (eprods ex_ebnf1) = true.
+Proof. eexists. split; vm_compute; reflexivity. Qed.
+
+Print Assumptions ext_preserves.
+Print Assumptions intro_preserves.
+Print Assumptions to_cfg_derives.
+Print Assumptions ebnf_to_bnf_correct.
+Print Assumptions emember_sound.
+Print Assumptions emember_complete.
+Print Assumptions emember_fuel_suffices.
